@@ -3,11 +3,12 @@
    the .ml lands there. *)
 From Coq Require Import Extraction ExtrOcamlBasic.
 From Coq Require Import List NArith.
-From FsDb Require Import VList VListRun Codec Core.
+From FsDb Require Import VList VListRun Codec Core Spec.
 
 Extraction Language OCaml.
 
 Extraction "fsdb_model.ml"
   VListRun.vrun VListRun.vrun_spec
   Core.m_init Core.mstep Core.sort_keys
+  Spec.a_init Spec.astep Spec.kvstep Spec.no_late_writes Spec.autocommit_only
   Codec.run_marshal Codec.run_unmarshal Codec.uuid_format Codec.uuid_parse.
